@@ -25,10 +25,12 @@ import (
 
 var c09HexName = regexp.MustCompile(`^[0-9a-f]{32}$`)
 
-func c09Converged(c *sx.StepCtx) []sx.Diff {
+func c09Converged(c *sx.StepCtx) []sx.Diff { return c09ConvergedWorld(c.W) }
+
+// c09ConvergedWorld: grace elapses, GC to a fixed point, then stored == referenced everywhere.
+func c09ConvergedWorld(w *world.World) []sx.Diff {
 	ctx := context.Background()
 	var out []sx.Diff
-	w := c.W
 	if w.Outbox != nil {
 		// drain the outbox part store: start its worker, let virtual time pass, stop it
 		if err := w.Outbox.Start(ctx); err != nil {
@@ -182,6 +184,27 @@ func TestC09(t *testing.T) {
 	}
 	s.Explore()
 	s.Coverage()
+	// crashed operations: the crash engine's runs (C10) with the convergence oracle after restart
+	outs := c10Explore(run, true, func(c c10Case) bool {
+		if quick() {
+			return c.Name == "put-overwrite" || c.Name == "delete-shared" || c.Name == "complete" || c.Name == "abort" || c.Name == "transition-to-cold" || c.Name == "append"
+		}
+		return true
+	})
+	crashRuns := 0
+	for _, o := range outs {
+		if o.Err != "" {
+			run.Report(ev.Violation{Class: "harness-error", Summary: o.Case + ": " + o.Err})
+			continue
+		}
+		crashRuns += o.Points
+		for _, v := range o.GC {
+			run.Report(v)
+		}
+	}
+	run.Cov["crash_runs_followed_by_gc"] = crashRuns
+	run.Cov["transitions"] = s.Transitions + crashRuns
+	fmt.Printf("C09: crash runs=%d\n", crashRuns)
 	fmt.Printf("C09: states=%d transitions=%d depth=%v\n", s.States, s.Transitions, s.DepthDone)
 	finish(t, run)
 }
